@@ -126,10 +126,25 @@ def run():
     jobs, meta = [], []
     exhaustive_groups = 0
     for gi in range(n_base):
-        a = docs.random_doc(r, depth=r.choice((2, 3)), width=3)
-        while not (isinstance(a, dict) or (isinstance(a, list) and any(isinstance(x, dict) for x in a))):
+        if gi % 3 == 2:
+            # tie-biased: keys that differ only in case or in one letter, values from a tiny pool, so that several
+            # pairings have exactly the same cost and only a canonical order can make the choice stable
+            pool = r.choice((("k", "K"), ("id", "ID", "Id", "iD"), ("ka", "kb", "kc", "kd"), ("a", "A", "b", "B"), ("xy", "xY", "Xy", "yx")))
+            vals = r.choice(((1, 2), ("v", "w"), (True, {}), ([1], [2]), ("bar", "baz", {})))
+            def tied(m):
+                return {k: r.choice(vals) for k in r.sample(pool, min(len(pool), m))}
+            a = tied(r.randint(2, 4))
+            b = {r.choice(("c", "zz", "q")): r.choice(vals + ("bar",)) for _ in range(r.randint(1, 2))}
+            if r.random() < 0.3:
+                a = {"outer": a, "n": 1}
+                b = {"outer": b, "n": 1}
+            if r.random() < 0.5:
+                a, b = b, a
+        else:
             a = docs.random_doc(r, depth=r.choice((2, 3)), width=3)
-        b = docs.mutate(a, r) if r.random() < 0.85 else docs.random_doc(r, depth=2, width=3)
+            while not (isinstance(a, dict) or (isinstance(a, list) and any(isinstance(x, dict) for x in a))):
+                a = docs.random_doc(r, depth=r.choice((2, 3)), width=3)
+            b = docs.mutate(a, r) if r.random() < 0.85 else docs.random_doc(r, depth=2, width=3)
         va, ea = permutations_of(a, r, limit)
         vb, eb = permutations_of(b, r, limit)
         exhaustive_groups += ea and eb
